@@ -1603,7 +1603,7 @@ func (s *State) runGhost(fr *Frame, anchor string) {
 		if g.Anchor != anchor {
 			continue
 		}
-		env := c.funcEnv(s, fr, false)
+		env := c.funcEnv(s, fr, anchor == "entry") // at entry the parameters have not been copied to their local cells yet
 		for k, v := range s.ghostExtra {
 			env.Vars[k] = v
 		}
